@@ -74,6 +74,29 @@ pub fn run(a: &Args, out: &mut impl Write) {
             }
         }
     }
+    // ---- scripted kernel: placements whose distance from the target is a multiple of a power of two plus
+    // a small offset (the distances at which an arithmetic done in a narrower integer type, in pages or in
+    // bytes, wraps back into the window), on both sides, followed by an honoured hint
+    for &src in &[0x5000_0000_0000usize, 0x2000_0000_1000] {
+        for j in 28..47u32 {
+            for k in [1usize, 2, 3, 7] {
+                for delta in [0usize, PAGE, RANGE / 2, RANGE - PAGE] {
+                    let d = match (k << j).checked_add(delta) {
+                        Some(d) => d,
+                        None => continue,
+                    };
+                    for up in [true, false] {
+                        let at = if up { src.checked_add(d) } else { src.checked_sub(d) };
+                        if let Some(at) = at {
+                            if at >= 0x10000 && at < 0x7fff_0000_0000 && (at & (PAGE - 1)) == (src & (PAGE - 1)) & 0 {
+                                run_alloc(out, "alias", src, 12, vec![Answer::At(at), Answer::Honour]);
+                            }
+                        }
+                    }
+                }
+            }
+        }
+    }
     // ---- scripted kernel: PRNG scripts
     for _ in 0..a.n {
         let src = *r.pick(&srcs) + PAGE * r.below(64) as usize;
